@@ -68,6 +68,11 @@ func verifSameMetric(a, b *gostatsd.Metric, what string) {
 }
 
 func verifSameEvent(a, b *gostatsd.Event, what string) {
+	for i := range a.Tags {
+		if i < len(b.Tags) {
+			verifAssert(a.Tags[i] == b.Tags[i], what+": event tag")
+		}
+	}
 	verifAssert(a.Title == b.Title && a.Text == b.Text, what+": title/text")
 	verifAssert(a.Source == b.Source && a.AggregationKey == b.AggregationKey && a.SourceTypeName == b.SourceTypeName, what+": strings")
 	verifAssert(a.Priority == b.Priority && a.AlertType == b.AlertType, what+": enums")
@@ -91,9 +96,23 @@ func verifShaped() []byte {
 	return []byte{b[0], ':', b[1], '|', b[2]}
 }
 
+// line kinds below -1: grammar-generated lines with tags
+//   -2 metric with two symbolic one-byte tags      a:1|c|#x,y
+//   -3 event with one symbolic one-byte tag        _e{1,1}:t|x|#z
+//   -4 metric with a host: tag and another tag     b:2|g|#host:h,w
 func verifLineOf(n int) []byte {
-	if n < 0 {
+	switch n {
+	case -1:
 		return verifShaped()
+	case -2:
+		t := verifTagBytes(2)
+		return []byte{'a', ':', '1', '|', 'c', '|', '#', t[0], ',', t[1]}
+	case -3:
+		t := verifTagBytes(1)
+		return []byte{'_', 'e', '{', '1', ',', '1', '}', ':', 't', '|', 'x', '|', '#', t[0]}
+	case -4:
+		t := verifTagBytes(2)
+		return []byte{'b', ':', '2', '|', 'g', '|', '#', 'h', 'o', 's', 't', ':', t[0], ',', t[1]}
 	}
 	return verifLine(n)
 }
@@ -150,6 +169,13 @@ func VerifC05_Concat_3_5() { verifC05Concat(3, 5, "") }
 func VerifC05_Concat_S_S() { verifC05Concat(-1, -1, "") }
 func VerifC05_Concat_S_3() { verifC05Concat(-1, 3, "ns") }
 func VerifC05_Concat_2_S() { verifC05Concat(2, -1, "") }
+
+func VerifC05_Concat_MT_ET() { verifC05Concat(-2, -3, "") }
+func VerifC05_Concat_ET_MT() { verifC05Concat(-3, -2, "") }
+func VerifC05_Concat_ET_ET() { verifC05Concat(-3, -3, "") }
+func VerifC05_Concat_H_MT()  { verifC05Concat(-4, -2, "") }
+func VerifC05_Concat_H_S()   { verifC05Concat(-4, -1, "") }
+func VerifC05_Concat_MT_H()  { verifC05Concat(-2, -4, "ns") }
 
 func VerifC05_ConcatTwin() {
 	verifC05Concat(3, 3, "")
